@@ -66,6 +66,20 @@ def tree(chk, P):
                     if ww and ww[1] == "=" and isinstance(ww[0], list) and ww[0][0] in ("opc", "idx") and var_of(ww[0][2] if ww[0][0] == "opc" else ww[0][1]) == lst and \
                             _strip(ww[0][-1]) == ["var", w[1]] and _strip(ww[2]) == ["var", w[1]]:
                         ok = True
+        if not ok:
+            # `int next = 0; for (int& e : list) e = next++;` -- a range-for visits the elements in order, so element k receives k
+            for h, body in loops.items():
+                rf = range_for(f, h)
+                if rf is None or _strip(rf[0]) != ["var", lst]:
+                    continue
+                for b in body:
+                    for q in f.blocks[b]["ev"]:
+                        if q["k"] == "assign" and q["lhs"] == ["var", rf[1]] and q["op"] == "=" and isinstance(q.get("rhs"), list) and _strip(q["rhs"])[:2] == ["un", "post++"]:
+                            cv = var_of(_strip(q["rhs"])[2])
+                            cd = [dd for _, _, dd in f.events(lambda dd: dd["k"] == "decl" and dd["var"] == cv)]
+                            others = [w for _, _, w in f.events(lambda w: w["k"] == "assign" and w["lhs"] == ["var", cv] and w["op"] != "++")]
+                            incs = [w for _, _, w in f.events(lambda w: w["k"] == "assign" and w["lhs"] == ["var", cv] and w["op"] == "++")]
+                            ok = len(cd) == 1 and _lit(cd[0].get("init"), ("0",)) and not others and len(incs) == 1
         d = [dd for _, _, dd in f.events(lambda dd: dd["k"] == "decl" and dd["var"] == lst)]
         sized = len(d) == 1 and bool(sx_find(d[0].get("init"), lambda y: y[0] == "call" and str(y[1]).endswith("::size") and field_of(y[2]) == IMPL + "::faces"))
         chk.judge(ok and sized and field_of(_strip(call_args(cs[0][2])[0])) == IMPL + "::obb", "TREE", "root:over-all-faces", "%s:%d" % (f.file, cs[0][2]["line"]),
@@ -185,7 +199,7 @@ def partition(chk, P):
         return
     cur = (lambda x: isinstance(_strip(x), list) and _strip(x)[0] in ("opc", "idx") and var_of(_strip(x)[2] if _strip(x)[0] == "opc" else _strip(x)[1]) == parent and _strip(_strip(x)[-1]) == ["var", w[1]]) \
         if w[0] == "idx" else (lambda x: _strip(x) == ["var", w[1]])
-    chk.judge(all(cur(call_args(e)[0]) for _, _, e in pushes), "PARTITION", "the-face-pushed-is-this-iteration's-face", f.loc, "%s" % sorted({sx_str(call_args(e)[0]) for _, _, e in pushes}))
+    chk.judge(all(cur(call_args(e)[0]) or cur(expand_locals(f, call_args(e)[0])) for _, _, e in pushes), "PARTITION", "the-face-pushed-is-this-iteration's-face", f.loc, "%s" % sorted({sx_str(call_args(e)[0]) for _, _, e in pushes}))
     # at least one push on every iteration path
     byp = _iter_bypass(f, h, loops[h], (h, len(f.blocks[h]["ev"]) - 1), [e for _, _, e in pushes])
     chk.judge(byp is None, "PARTITION", "every-face-goes-somewhere", f.loc, "an iteration can end without a push", byp)
@@ -256,6 +270,10 @@ def queries(chk, P):
             chk.judge(bool(uvw) and all(b == fw[0][0] for b, _ in uvw) if fw else False, "LEAF", meth + ":coordinates-written-with-them", f.loc, "")
         # MERGE: in every return block of the interior region, the outputs come from one child
         rec = [(b, i, e) for b, i, e in f.calls() if e.get("fid") == f.id]
+        for g_ in P.all_fns():      # a child's search extracted into a local lambda (captures by reference: same variables)
+            if g_.d.get("parent") == f.id and g_.blocks:
+                rec += [(b, i, e) for b, i, e in g_.calls() if e.get("fid") == f.id]
+        lam_assigns = [q for g_ in P.all_fns() if g_.d.get("parent") == f.id and g_.blocks for _, _, q in g_.events(lambda q: q["k"] == "assign")]
         prov = {}
         for b, i, e in rec:
             k = field_of(call_obj(e))
@@ -266,7 +284,7 @@ def queries(chk, P):
                     prov.setdefault(v, set()).add(k)
             for d in [dd for _, _, dd in f.events(lambda q: q["k"] == "decl" and isinstance(q.get("init"), list) and q["init"] == e["x"])]:
                 prov.setdefault(d["var"], set()).add(k)
-            for q in [qq for _, _, qq in f.events(lambda q: q["k"] == "assign" and q.get("rhs") == e["x"])]:
+            for q in [qq for _, _, qq in f.events(lambda q: q["k"] == "assign" and q.get("rhs") == e["x"])] + [qq for qq in lam_assigns if qq.get("rhs") == e["x"]]:
                 prov.setdefault(var_of(q["lhs"]), set()).add(k)
         chk.shape(len(rec) >= 2 and {k for s in prov.values() for k in s} == {1, 2}, "MERGE", meth + ":recursions-into-both-children", f.loc, "%d recursive calls" % len(rec))
         nret = 0
@@ -321,6 +339,13 @@ def dropaxis(chk, P):
             return c[1], mag(c[2])[1], mag(c[3])[1]
         return None
     heads = [b for b, blk in f.blocks.items() if blk.get("term") and cmp_of(blk["term"].get("cond"))]
+    if len(heads) < 2:
+        # the selection extracted into a file-local helper called from the leaf loop
+        for _, _, e in f.calls():
+            for g_ in P.by_id.get(e.get("fid"), []):
+                hs_ = [b for b, blk in g_.blocks.items() if blk.get("term") and cmp_of(blk["term"].get("cond"))]
+                if g_.blocks and len(hs_) >= 2 and not g_.cls:
+                    f, heads = g_, hs_
     if not chk.shape(len(heads) >= 2, "DROPAXIS", "axis-selection", f.loc, "%d comparisons of normal-component magnitudes" % len(heads)):
         return
     preds = f.preds()
